@@ -152,7 +152,7 @@ def run(check):
     check.rule = ("generated workflow programs (all shapes of vlib.gen incl. fan-in up to 45 producers) x outcome vectors "
                   "(success/error/alt/crash/drop/deploy failure/never-ending) x optional random multi-site delay plans; plus (a) outputs / step inputs that cannot be "
                   "evaluated at run time next to never-ending steps and (b) 'late waiter' programs whose remaining outputs hang on a stage of a step that can never "
-                  "deploy/start and whose wait announcement is forced to be the last event of the run; (e) up to 45 steps waiting for a failing step; (c) steps stopped while running that are slow to hand in their result, closure timeouts 0 / 30 ms; (d) never-ending programs aborted by the caller at plugin-boundary events (must return, with a declared output or an error); "
+                  "deploy/start and whose wait announcement is forced to be the last event of the run; (f) a prepared workflow run again (and looped over) when its only output becomes impossible each time next to a never-ending step; (e) up to 45 steps waiting for a failing step; (c) steps stopped while running that are slow to hand in their result, closure timeouts 0 / 30 ms; (d) never-ending programs aborted by the caller at plugin-boundary events (must return, with a declared output or an error); "
                   "executed through FromYAML->Prepare->Execute in child processes; a case is non-trivial if at least one step "
                   "fails or never ends or >=2 producers feed one consumer; distinct = distinct (shape, outcome vector, result)")
     check.assumptions = ["hang oracle: Go runtime deadlock report in a timer-free child (DESIGN 4.3)",
@@ -250,6 +250,33 @@ def run(check):
             shape = "%s aborted by the caller at %s:%s#%d" % (name, kind, src, nth)
             trig = [{"kind": kind, "src": src, "nth": nth, "action": "cancel:0"}]
         closing.append(({"id": "c01-z%04d" % j, "files": prog.files(), "scripts": scripts, "runs": [{"input": cancelfam.base_input(random.Random(j))}], "triggers": trig, "no_events": True}, shape))
+    # (f) the same prepared workflow run again (second Execute, second and later items of a loop over it) when its only output
+    # becomes impossible in every run while an unrelated step never ends: every run returns, with an error
+    from ..model import Step
+    for j in range(check.pick(12, 60)):
+        rng = random.Random(derive_seed(check.seed, "c01-again", j))
+        bad = ["error", "crash", "deployfail"][j % 3]
+        def failing(prefix, inp_schema, name):
+            f = gen.plugin_step("f", Expr(In("tag")), src=prefix + "f")
+            h = gen.plugin_step("h", Expr(In("tag")), src=prefix + "h")
+            steps = [f, h]
+            rng.shuffle(steps)
+            return Program(steps, {"success": {"t": gen.tagref("f")}}, inp_schema, name=name), {prefix + "f": bad}
+        if j % 2 == 0:
+            prog, oc = failing("", gen.BASE_INPUT, "workflow.yaml")
+            scripts = gen.make_scripts(prog.steps, {"f": bad, "h": "hang"})
+            runs = [{"input": {"tag": "T%d" % q}, "tag": "r%d" % q} for q in range(rng.choice([2, 3]))]
+            shape = "run again after the only output became impossible (%s), %d runs" % (bad, len(runs))
+        else:
+            sub, oc = failing("sub_", gen.SUB_INPUT, "sub.yaml")
+            fe = Step("loop", "foreach", sub=sub, items=Expr(In("items")), parallelism=1)
+            prog = Program([fe], {"success": {"d": Expr(Ref("loop", "outputs", "success", "data"))}, "failed": {"e": Expr(Ref("loop", "failed", "error"))}}, gen.BASE_INPUT)
+            scripts = gen.make_scripts([fe], {})
+            scripts["sub_f"] = gen.make_scripts(sub.steps, {"f": bad})["sub_f"]
+            scripts["sub_h"] = {"exec": {"outcome": "hang", "on_cancel": "error"}}
+            runs = [{"input": {"tag": "T", "items": [{"tag": "i%d" % q} for q in range(3)]}}]
+            shape = "loop over a workflow whose only output becomes impossible in every item (%s)" % bad
+        closing.append(({"id": "c01-y%04d" % j, "files": prog.files(), "scripts": scripts, "runs": runs, "no_events": True}, shape))
     with harness.Runner() as rn:
 
         if not rn.hang_oracle_works():
@@ -273,10 +300,10 @@ def run(check):
         if res.get("parse_err") or res.get("prepare_err"):
             check.inconclusive_case(case["id"], (res.get("parse_err") or res.get("prepare_err"))[:100])
             continue
-        run = (res.get("runs") or [{}])[0]
-        if bool(run.get("out_id")) == bool(run.get("err")):
-            check.report("result@neither-output-nor-error" if not run.get("out_id") else "result@output-and-error", "%s: the run returned output id %r and error %r" % (shape, run.get("out_id"), run.get("err")), {"case": case, "run": run})
-        ended["output" if run.get("out_id") else "error"] += 1
+        for run in (res.get("runs") or [{}]):
+            if bool(run.get("out_id")) == bool(run.get("err")):
+                check.report("result@neither-output-nor-error" if not run.get("out_id") else "result@output-and-error", "%s: the run returned output id %r and error %r" % (shape, run.get("out_id"), run.get("err")), {"case": case, "run": run})
+            ended["output" if run.get("out_id") else "error"] += 1
         check.nontrivial("%s|%s" % (shape.split(" at ")[0], "output" if run.get("out_id") else "error"))
     check.extra["runs_with_stopped_or_closed_steps"] = ended
     check.extra["distinct_plugin_event_orders"] = len(orders)
